@@ -130,13 +130,23 @@ def c03common (a : List String) : Option (Nat × Nat × Nat × Nat × RFlag × (
     else some (m, B, A, M, clientFlag pat (inv = "1"), engineOf raw bNL bNo, raw, bNL, bNo)
   | _ => none
 
+/-- tie G: `filterWithLContext` as translated from the working tree on this run, on the same raw lines and verdicts: the
+    contents of the lines it sends (`none`: a panic of the translation) -/
+def c03translated (B A M : Nat) (sel : Bytes → Bool) (raw : List Bytes) : Option (List Bytes) :=
+  let ext : Go.Ext := { parseFloat := fun _ => (0, none), reMatch := fun _ l => sel l, fuel := B + 2 }
+  let ltx : Go.GoLContext := { AfterContext := A, BeforeContext := B, MaxCount := M }
+  match Gen.Grep.readFile.filterWithLContext ext {} () ltx raw () {} with
+  | .ok f => some (f.lines.map fun l => match l with | .new c _ _ _ => c | .null => [])
+  | _ => none
+
 def opC03Grep (a : List String) : Res :=
   match c03common a with
   | some (_, B, A, M, f, eng, raw, _, _) =>
     let out := dgrepLines B A M f eng raw
+    let genBad := (B > 0 ∨ A > 0 ∨ M > 0) ∧ c03translated B A M (fun l => matchFlag f (eng l)) raw != some (out.map (·.2))
     let lsSpec := raw.map (fun l => (matchFlag f (eng (chomp l)), l))
     let spec := grepSpec B A M (blocks lsSpec).1 (blocks lsSpec).2
-    { m := joinWith "," (out.map (fun (n, l) => s!"{n}:{hexOf l}")),
+    { m := if genBad then "TRANSLATED-FILTER-DIFFERS-FROM-MODEL" else joinWith "," (out.map (fun (n, l) => s!"{n}:{hexOf l}")),
       s := joinWith "," (spec.map hexOf),
       g := if f != .noop ∧ sigNlSensitive eng raw then "nl-sensitive" else "-",
       t := c03tags B A M lsSpec out.length }
